@@ -26,7 +26,7 @@ def compositions(n, maxparts):
 def cases(tier, seed):
     out = []
     if tier == "quick":
-        N, G, threads, maxparts = 4, 2, [1, 2, 3], 2
+        N, G, threads, maxparts = 4, 2, [1, 2, 3, 4], 2
     else:
         N, G, threads, maxparts = 6, 3, [1, 2, 3, 4], 3
     allmasks = [list(bits) for bits in itertools.product([False, True], repeat=N)]
@@ -83,7 +83,7 @@ def validate(E, seed, tier):
 
 
 META = {
-    "bounds": {"quick": {"N": 4, "G": 2, "threads": [1, 2, 3], "value_chunks": "every composition of N into 2 parts"},
+    "bounds": {"quick": {"N": 4, "G": 2, "threads": [1, 2, 3, 4], "value_chunks": "every composition of N into 2 parts"},
                "thorough": {"N": 6, "G": 3, "threads": [1, 2, 3, 4], "value_chunks": "every composition of N into <= 3 parts",
                             "extra": "count/sum/max/first/last float64 at N=8"}},
     "enumerated": ["boolean masks on the multi-block path (array_split of mask.nonzero() has a data-dependent shape)",
